@@ -258,7 +258,7 @@ func main() {
 			}
 		}
 	} else {
-		fanOut(false, "w", 0, start.Add(budget))
+		fanOut(false, "w", 0, time.Now().Add(budget))
 	}
 	if infra != "" {
 		die(2, "%s", infra)
